@@ -122,6 +122,20 @@ func (p *regExpParser) scanGroup() {
 
 // [...].
 func (p *regExpParser) scanBracket() {
+	// ES5 15.10.2.13: "[]" is the empty class and "[^]" matches any character;
+	// re2 would take a leading ']' as a member of the class.
+	if p.chr == ']' || (p.chr == '^' && p.chrOffset+1 < p.length && p.str[p.chrOffset+1] == ']') {
+		if p.chr == '^' {
+			p.read()
+			p.goRegexp.Truncate(p.goRegexp.Len() - 1)
+			p.goRegexp.WriteString(`[\x00-\x{10FFFF}]`)
+		} else {
+			p.goRegexp.Truncate(p.goRegexp.Len() - 1)
+			p.goRegexp.WriteString(`[^\x00-\x{10FFFF}]`)
+		}
+		p.read()
+		return
+	}
 	for p.chr != -1 {
 		if p.chr == ']' {
 			break
